@@ -145,7 +145,7 @@ Proof.
     + vm_compute. reflexivity.
   - intro c. vm_compute. reflexivity.
   - intro c. vm_compute. reflexivity.
-  - intros cl c H. unfold m_mark, m_code. destruct cl as [|[|[|cl]]]; try lia; try reflexivity.
+  - intros cl c H. unfold m_mark, m_code. destruct cl as [|[|[|[|[|[|[|cl]]]]]]]; try lia; try reflexivity.
 Qed.
 
 (* sqlx / redis call sites hand the error to the same generated predicates: benign classes are success marks *)
